@@ -252,6 +252,8 @@ def run_registry(ops):
         return ["harness: could not build equal-but-distinct code objects"]
     codes = {1: c1, 2: c2, 3: c3}
     disp = lowlevel.code_dispatch(lambda fr: fr.f_code)(lambda fr: "default")
+    # a registry belongs to ONE dispatcher: a second dispatcher (and the library's own hooks) never see these registrations
+    bystander = lowlevel.code_dispatch(lambda fr: fr.f_code)(lambda fr: "bystander-default")
     handlers = {"h1": lambda fr: "h1", "h2": lambda fr: "h2"}
 
     class F:
@@ -268,6 +270,10 @@ def run_registry(ops):
                 bad.append("op %d dispatch(code %d): spec %s real %s (history %s)" % (i, o["k"], o["res"], got, [(x["op"], x["k"], x["v"]) for x in ops[:i + 1]]))
             if (disp.dispatch(f)(f)) != got:
                 bad.append("dispatch() and call disagree")
+            if bystander(f) != "bystander-default":
+                bad.append("op %d: a registration made on one dispatcher is seen by another one (%s)" % (i, bystander(f)))
+            if codes[o["k"]] in stackscope.elaborate_frame.registry or codes[o["k"]] in stackscope.unwrap_context_generator.registry:
+                bad.append("op %d: a registration made on a private dispatcher shows up in the registry of a library hook" % i)
     # registry view
     return bad
 
